@@ -202,6 +202,42 @@ def task_mutated(a, env):
     return r
 
 
+def sweep_case(which, n):
+    from .. import lib as _lib
+    H = _h()
+    if which == "extract":
+        call = lambda x: _norm(_call(H.hkdf_extract, b"salt", x))  # noqa: E731
+        expect = lambda x: ("ok", M.extract(b"salt", x))  # noqa: E731
+    elif which == "expand":
+        call = lambda x: _norm(_call(H.hkdf_expand, x.ljust(32, b"."), b"info", 48))  # noqa: E731
+        expect = lambda x: ("ok", M.expand(x.ljust(32, b"."), b"info", 48))  # noqa: E731
+    else:
+        S = getattr(importlib.import_module("py_ecc.bls"), "G2ProofOfPossession")
+        call = lambda x: _call(S.KeyGen, x.ljust(32, b"."), b"ki")  # noqa: E731
+        expect = lambda x: ("ok", M.keygen(x.ljust(32, b"."), b"ki"))  # noqa: E731
+    anchors = [b"anchor-0", b"anchor-1", bytes(32), b"\xff" * 32]
+    return _lib.sweep(call, anchors, (b"distinct-%d" % j for j in range(n)), n, expect)
+
+
+def task_sweep(a, env):
+    r = R("anchors-again-after-n-distinct-inputs")
+    for which in ("extract", "expand", "keygen"):
+        n = a["n"] if which != "keygen" else a["n"] // 2
+        bad = sweep_case(which, n)
+        r.ev += n + 4 * 24
+        r.dk.add(which)
+        if bad:
+            r.viol("C16:%s:stale-after-many-distinct" % which, ME + ":replay_sweep", {"which": which, "n": bad[0]}, bad[2], bad[3],
+                   note="anchor %d after %d distinct inputs" % (bad[1], bad[0]))
+    r.sample({"n": a["n"], "history": "f(a0..a3); f(d1); f(a0..a3); f(d2); f(a0..a3); ..."})
+    return r
+
+
+def replay_sweep(a):
+    bad = sweep_case(a["which"], a["n"])
+    return None if not bad else {"after": bad[0], "anchor": bad[1], "expected": bad[2], "observed": bad[3]}
+
+
 def replay_mut(a):
     for step, exp, got in mut_case(a):
         if exp != got:
@@ -244,6 +280,7 @@ def run(ctx):
         tasks.append(("expand", {"Ls": [0, 1, 32, 33, 64, 100, 8160], "linfos": [0, 3], "fill": "count",
                                  "prklen": prklen}))
     tasks.append(("mutated", {}))
+    tasks.append(("sweep", {"n": 1200 if q else 20000}))
     for si, suite in enumerate(("G2Basic", "G2MessageAugmentation", "G2ProofOfPossession")):
         lis = list(range(0, 129)) if (si == 0 or not q) else [0, 1, 31, 32, 33, 64, 128]
         lks = list(range(0, 65)) if (si == 0 or not q) else [0, 1, 32, 64]
